@@ -136,6 +136,7 @@ Proof. intros (_ & _ & _ & E4 & E5 & _ & _ & E8). unfold fr. auto. Qed.
 Ltac skel_triv :=
   unfold same_skel; cbv beta;
   repeat match goal with |- context [if ?b then _ else _] => destruct b end;
+  repeat match goal with |- context [match sc_ifms ?s with _ => _ end] => destruct (sc_ifms s) as [|[| | |] ?] end;
   repeat split; sproj; try reflexivity; try (rewrite app_length; lia); try lia.
 
 Lemma wp_modify_skel f (Q : unit -> st -> Prop) s :
@@ -338,12 +339,16 @@ Lemma wp_end_implicit_mapping mk (Q : unit -> st -> Prop) s :
   SI s -> (forall s', SI s' -> fr s s' -> Q tt s') -> wp (end_implicit_mapping mk) Q s.
 Proof.
   intros HI HQ. unfold end_implicit_mapping. apply wp_bind, wp_get.
-  destruct (sc_ifms s) as [|[|] r]; try (apply wp_ret, HQ; [exact HI|apply fr_refl]).
-  apply wp_bind, wp_put.
-  set (s1 := set_ifms (ImPossible :: r) (set_fms false s)).
-  assert (K : same_skel s s1) by (unfold s1; skel_triv).
-  apply wp_push_tok; [eapply si_ext; eauto|]. intros s2 HI2 F2.
-  apply HQ; [exact HI2|]. eapply fr_trans; [apply skel_fr; exact K|exact F2].
+  destruct (sc_ifms s) as [|[| | |] r]; try (apply wp_ret, HQ; [exact HI|apply fr_refl]).
+  - apply wp_bind, wp_put.
+    set (s1 := set_ifms (ImPossible :: r) s).
+    assert (K : same_skel s s1) by (unfold s1; skel_triv).
+    apply wp_push_tok; [eapply si_ext; eauto|]. intros s2 HI2 F2.
+    apply HQ; [exact HI2|]. eapply fr_trans; [apply skel_fr; exact K|exact F2].
+  - apply wp_put.
+    set (s1 := set_ifms (ImPossible :: r) s).
+    assert (K : same_skel s s1) by (unfold s1; skel_triv).
+    apply HQ; [eapply si_ext; eauto|apply skel_fr; exact K].
 Qed.
 
 (* the simple-key stack and the flow level grow and shrink together *)
@@ -489,7 +494,7 @@ Proof. intros [A1 A2]. apply range_mono; assumption. Qed.
 Lemma j_keeps s s' : keeps s s' -> J s -> J s'.
 Proof.
   intros K [H HJ]. split; [eapply sinv_keeps; eauto|].
-  destruct K as (_ & _ & _ & _ & A5 & _ & _ & _ & A9). rewrite A5. intros E. specialize (HJ E).
+  destruct K as (_ & _ & _ & _ & A5 & _ & _ & A9). rewrite A5. intros E. specialize (HJ E).
   destruct A9 as [[_ ->]|Au]; [exact HJ|]. rewrite HJ in Au. cbn [unroll_nb] in Au. congruence.
 Qed.
 Lemma j_ext s s' : same_skel s s' -> J s -> J s'.
@@ -549,7 +554,7 @@ Qed.
 
 Lemma wp_fetch_flow_collection_end F seq s : SI s -> wp (fetch_flow_collection_end B F seq) post_si s.
 Proof.
-  intros HI. unfold fetch_flow_collection_end. sks. sks. sks. sks. wmark.
+  intros HI. unfold fetch_flow_collection_end. sks. sks. sks. sks. sks. wmark.
   wb. apply (wp_skip_non_blank cap cap_ge). kstep.
   wb. eapply use_spec; [apply H_ws|]. kstepv.
   sks. wmark. fin.
@@ -629,7 +634,7 @@ Proof.
   destruct (si_sks_nonempty _ HI) as (sk & r0 & EK). rewrite EK. wb. apply wp_ret. cbv beta zeta.
   assert (HR : sk_in_range s sk).
   { destruct (si_elim _ HI) as (_ & _ & _ & I3). rewrite EK in I3. inversion I3; assumption. }
-  match goal with |- context [?a && negb (sc_fms s)] => generalize (a && negb (sc_fms s)); intros ifm end.
+  match goal with |- context [if ?a then modify _ else ret tt] => generalize a; intros ifm end.
   sks.
   wb. apply (wp_skip_non_blank cap cap_ge). kstep.
   wb. apply (wp_look_ch cap cap_ge). intros c s2 Hs2 B2 _.
